@@ -446,3 +446,77 @@ def check_C15(tier):
     rep.cov["states"] = max(rep.cov["states"], 1)
     rep.cov["transitions"] = max(rep.cov["transitions"], 1)
     return rep.finish()
+
+
+# ------------------------------------------------------------------- C10 / C20
+
+def check_C20(tier):
+    import persist as P
+    rep = Report("C20", tier)
+    rng = _rng("C20")
+    quick = tier == "quick"
+    P.model_check(rep)
+    files = []
+    for kind in ("linear", "log16", "log8", "hll", "hh"):
+        for _ in range(1 if quick else 3):
+            files.append(P.prefix_events(rng, kind, stride=1))
+    P.validate(rep, files, [], "c20")
+    per = {}
+    for f in files:
+        acc = 0
+        bounds = []
+        for k, ln in f["regions"]:
+            bounds.append((acc, acc + ln, k))
+            acc += ln
+        for off, _ld, _o in f["events"]:
+            for lo, hi, k in bounds:
+                if lo <= off < hi:
+                    per[k] = per.get(k, 0) + 1
+    rep.cov["prefix_loads_per_region"] = per
+    rep.sample({"cls": files[0]["cls"], "regions": files[0]["regions"][:6], "total": files[0]["total"],
+                "events": files[0]["events"][:3] + files[0]["events"][-2:]})
+    rep.cov["exhaustive"] = True
+    rep.cov["rule"] = ("every byte offset 0..len of each saved file (5 classes), through the class loader and the module-level "
+                       "load(); the complete file must load to the saved sketch")
+    rep.cov["distinct_nontrivial"] = rep.cov["evaluations"]
+    rep.assumptions += ["np.savez writes stored zip members with the EOCD record last (checked on every file by LayoutOK)"]
+    return rep.finish()
+
+
+def check_C10(tier):
+    import persist as P
+    import cm_linear as L
+    import cm_log as G
+    import hh as H
+    import hll as Y
+    rep = Report("C10", tier)
+    rng = _rng("C10")
+    quick = tier == "quick"
+    # loader / class matrix and parameter / state / observer equality, merge both ways
+    trips = P.roundtrips(rng, 25 if quick else 200)
+    P.validate(rep, [], trips, "c10")
+    rep.sample({k: trips[0][k] for k in ("cls", "loader", "shm", "outcome", "params_before")})
+    # "evolves identically under any further operations": save/load chains inside validated
+    # histories of every class -- the loaded object replaces a slot and both continue
+    n = 30 if quick else 300
+
+    def heavy(mod, focus=None):
+        out = []
+        for _ in range(n):
+            t = mod.random_history(rng) if focus is None else mod.random_history(rng, focus=focus)
+            out.append(t)
+        return out
+    lt, gt, ht, yt = heavy(L), heavy(G), heavy(H), heavy(Y)
+    for i in range(0, n, 150):
+        L.validate(rep, lt[i:i + 150], ["NAdded"], [], tag="c10lt%d" % i)
+        G.validate(rep, gt[i:i + 150], [], [], tag="c10gt%d" % i)
+        H.validate(rep, ht[i:i + 150], ["CacheCoherent"], H.PROP_C13, tag="c10ht%d" % i)
+        Y.validate(rep, yt[i:i + 150], ["UnionSemantics"], tag="c10yt%d" % i)
+    if rep.cov["actions"].get("saveload", 0) < 8:
+        raise common.MachineryError("vacuous: too few save/load events in the histories")
+    rep.cov["rule"] = ("loader x class matrix with random shapes/parameters/histories and shared_memory on/off; save->load->continue "
+                       "chains inside validated histories of all five classes")
+    rep.cov["distinct_nontrivial"] = len({json.dumps(t, sort_keys=True) for t in trips}) + rep.cov["traces_validated_against_impl"]
+    rep.cov["states"] = max(rep.cov["states"], 1)
+    rep.cov["transitions"] = max(rep.cov["transitions"], 1)
+    return rep.finish()
